@@ -60,8 +60,16 @@ def gen_plan(seed, tier):
     # integer-valued points kept in an integer dtype (e.g. uint8 image data)
     desc = dict(desc, kind="grid", grid=r.choice([4, 9]))
     int_store = r.choice(["uint8", "int8", "int16", "uint16", "int32"])
+    one_d = r.random() < 0.35
+    if one_d:
+      # a single integer feature: formed (n, 1) integer points look most like
+      # indicators - and still must never be sent through the preprocessor
+      desc["d"] = 1
+      desc["grid"] = 12
     D = _data(desc)
-    p = params_for(name, r, D) or p
+    p = params_for(name, r, D) or ({} if one_d else p)
+    if one_d:
+      p = {k: v for k, v in p.items() if k not in ("n_components", "init", "prior", "basis", "n_basis", "k")}
   fault_run = r.random() < 0.45
   pre = "store" if fault_run else r.choice(["store", "ndarray", "list"])
   ops = []
